@@ -295,8 +295,20 @@ void iv_work_pool_put(struct iv_work_pool *this)
 	pool->shutting_down = 1;
 
 	if (!pool->started_threads) {
+		/*
+		 * A continuation may have been queued while the pool
+		 * had no threads (with only ->thread_needed posted),
+		 * in which case we need a thread to run it before the
+		 * pool can be freed.
+		 */
+		if (iv_list_empty(&pool->work_items) ||
+		    iv_work_start_thread(pool) < 0) {
+			___mutex_unlock(&pool->lock);
+			iv_event_post(&pool->ev);
+			return;
+		}
+
 		___mutex_unlock(&pool->lock);
-		iv_event_post(&pool->ev);
 		return;
 	}
 
